@@ -8,7 +8,9 @@ package streams
 //	           injected clock, ETAG_SUFFIX set per case, key lock free or held
 //	httpdate   time.Parse with time.RFC1123 / time.RFC1123Z (what caching.go:227-234 calls)
 //	skipcache  server.shouldSkipCaching
-//	kf.C10-a kf.C10-b kf.C08-a kf.C08-b kf.C09-a   fixed witness tables of the known findings
+//	kf.C10-b kf.C08-a kf.C08-b kf.C09-a   fixed witness tables of the known findings
+//	kf.C10-a   the witnesses of the repaired finding C10-a (HTAB as optional white space), kept as a
+//	           regression stream: every case must now be honoured (oracle ok, no class)
 
 import (
 	"context"
@@ -198,6 +200,7 @@ func ccStream(g *hx.Gen, id int) hx.Case {
 	return ccCase("ccparse", id, h, age)
 }
 
+// frKfC10a: finding C10-a is fixed (the parser trims SP and HTAB); these inputs run as regression cases.
 var frKfC10a = []http.Header{
 	{"Cache-Control": {"max-age=10,\tno-store"}},
 	{"Cache-Control": {"no-cache\t"}},
